@@ -54,6 +54,22 @@ CHECKS = {
         level_note="engines themselves are black boxes (differential only). Findings on the in-memory engine are listed in known_findings.json; the pebble SeekForPrev defect was repaired (fix: commit aca9203).",
         technique="Lean 4 proof of the reference contract and the iterator wrapper + differential run of 5 engine variants against the reference",
     ),
+    'C16': dict(
+        gens=['Stream'],
+        props='ZanVerif.Props.C16',
+        protos=[dict(name='stream', quick_seeds=1, thorough_seeds=2)],
+        rule="sessions on one shared stream: 1-3 raft groups interleaved with link heartbeats, MsgApps that continue / change term / go back (probe) / carry a non-matching LogTerm, 0-3 entries each incl. entries around the 1 MiB buffer, a few not-well-formed senders; "
+             "the bytes of every encode call are compared, then the whole stream and random truncation points are decoded by the real decoder and by the model; generic message stream with all message types and arbitrary field values; "
+             "corrupted (not truncated) length words: oracle only. non-trivial = answered without error; distinct = distinct op lines",
+        trusted=["gogo-protobuf Marshal/Unmarshal (payloads are opaque bytes in the model; the harness passes the fields of every full message it sends)",
+                 "io.ReadFull / binary.Read short-read semantics are modelled (EOF when nothing was read, ErrUnexpectedEOF when part was read)"],
+        partial=["corrupted (not truncated) streams are outside the theorems: length words are bounded (fix: commit) and checked by the oracle, but a corrupted payload is handed to protobuf",
+                 "the stream picker (MsgApp -> v2, MsgSnap -> pipeline, rest -> message stream) is not modelled"],
+        assumptions=["WfRun: MsgApps on the v2 stream have From/To equal to the groups' replica ids, carry no Reject/Snapshot/Context, node ids match the connection, and a group's name does not change while its ids stay the same (isSameGroup ignores the name)"],
+        level_text="Theorems: (message level) the stateful msgappv2 codec, with isContinue / isSameGroup regenerated from the Go source, returns exactly the sent messages for every well-formed run, any interleaving of raft groups and link heartbeats, with the two codec states staying equal; two `decide` examples show both hypotheses are needed. (byte level) the framing of both codecs round-trips for every frame sequence, and for EVERY byte offset a truncated stream decodes to a prefix of the frames followed by io.EOF / io.ErrUnexpectedEOF, never a different frame. The model is tied byte for byte to the real encoders and, on whole and truncated streams, to the real decoders (incl. which of the two EOF errors is returned).",
+        level_note="protobuf is opaque; corrupted streams oracle-only; entries larger/smaller than the 1 MiB buffer take different branches in the Go code and identical bytes in the model (compared).",
+        technique="Lean 4 proof (stateful codec round trip, framing round trip, truncation at every offset) + byte-for-byte differential run",
+    ),
 }
 
 # properties not (yet) claimed, with the reason; bin/mkmanifest drops an entry as soon as CHECKS has it
